@@ -64,6 +64,9 @@ type PbfBlock struct {
 	LonOff    int
 	DateGran  int // 0 = default (absent)
 	Zlib      bool
+	// damage (reader-detectable inconsistencies inside the block)
+	ShortStrings bool // string table cut to its first entry: every reference points outside it
+	ExtraColumn  bool // parallel columns of different length (way lat longer than refs, one role more than types)
 }
 
 type PbfFile struct {
@@ -175,6 +178,9 @@ func pbfInfo(ver, ts, cs, uid, user int, vis *bool) *pb.Info {
 
 func pbfPrimitiveBlock(b PbfBlock) []byte {
 	blk := &pb.PrimitiveBlock{Stringtable: &pb.StringTable{S: pbfStrings}}
+	if b.ShortStrings {
+		blk.Stringtable = &pb.StringTable{S: pbfStrings[:1]}
+	}
 	if b.Gran != 0 {
 		blk.Granularity = proto.Int32(int32(b.Gran))
 	}
@@ -251,6 +257,9 @@ func pbfPrimitiveBlock(b PbfBlock) []byte {
 			if w.HasLoc {
 				pw.Lat, pw.Lon = pbfDelta(lats), pbfDelta(lons)
 			}
+			if b.ExtraColumn {
+				pw.Lat = append(pbfDelta(lats), 1, 1)
+			}
 			g.Ways = append(g.Ways, pw)
 		}
 		blk.Primitivegroup = append(blk.Primitivegroup, g)
@@ -270,6 +279,10 @@ func pbfPrimitiveBlock(b PbfBlock) []byte {
 				pr.Types = append(pr.Types, pb.Relation_MemberType(pbfAbs(m.Type)%3))
 			}
 			pr.Memids = pbfDelta(mids)
+			if b.ExtraColumn {
+				pr.RolesSid = append(pr.RolesSid, 1)
+				pr.Memids = append(pr.Memids, 1)
+			}
 			g.Relations = append(g.Relations, pr)
 		}
 		blk.Primitivegroup = append(blk.Primitivegroup, g)
@@ -314,6 +327,7 @@ func pbfNormalize(f *PbfFile) {
 	}
 	for bi := range f.Blocks {
 		b := &f.Blocks[bi]
+		b.ShortStrings, b.ExtraColumn = false, false
 		b.Gran, b.DateGran = pbfAbs(b.Gran)*50, pbfAbs(b.DateGran)*500
 		// ids ascending and distinct per block so that every object is identifiable
 		for i := range b.Nodes {
